@@ -33,6 +33,10 @@ var c08Binds = []struct{ key, action string }{
 	{"alt-g", "toggle-sort+toggle-search"},
 	{"alt-h", "exclude+toggle-search"},
 	{"alt-i", "put(a)+toggle-search"},
+	// exclusions of different lines in quick succession (the cursor moves in between)
+	{"alt-k", "down"},
+	{"alt-l", "up"},
+	{"alt-z", "down+exclude"},
 }
 
 func genDelay(r *zsim.Rng) int {
@@ -129,6 +133,27 @@ func genC08Plan(r *zsim.Rng) *sysPlan {
 			p.Gens[1].N = r.Range(3, 200)
 		}
 	}
+	if r.Chance(1, 8) {
+		// aimed at requests that meet in the coordinator's mailbox (wave 18): the input is still trickling in
+		// (the coordinator sleeps between looks at its mailbox, --tail trims now and then), and several
+		// different lines are excluded within a few milliseconds
+		p.Reads, p.GapsMs = nil, nil
+		for i := r.Range(2, 6); i > 0; i-- {
+			p.Reads = append(p.Reads, r.Range(20, 400))
+			p.GapsMs = append(p.GapsMs, []int{10, 30, 60, 150}[r.Intn(4)])
+		}
+		if p.Lines.N < 60 {
+			p.Lines.N = r.Range(60, 600)
+			p.Gens[0] = p.Lines
+		}
+		if r.Bool() {
+			p.Tail = []int{5, 20, 50, 100}[r.Intn(4)]
+		}
+		p.Events = append(p.Events, sysEvent{Kind: "keys", Keys: "alt-k", DelayMs: r.Range(50, 400)})
+		for k := r.Range(3, 12); k > 0; k-- {
+			p.Events = append(p.Events, sysEvent{Kind: "keys", Keys: pick(r, "alt-x", "alt-z", "alt-z", "alt-z", "alt-k", "alt-l"), DelayMs: []int{0, 0, 1, 3, 8, 15, 40, 90}[r.Intn(8)]})
+		}
+		}
 	// query edits bound to events of the key loop itself: backward-eof (backspace on an empty query), jump and
 	// jump-cancel (the key that ends jump mode)
 	evBinds := r.Chance(1, 5)
